@@ -17,12 +17,16 @@ pub fn check() -> Check {
         property: "C09",
         level: "fault_enumeration",
         rule: "seeded swarm of explicit plans {builder/reader configuration, payload, source schedule, BufReader capacity, sink schedule, consumer script, one injected I/O fault}; for payloads <= 2 KiB every fault point (each source read, sink write and flush call of the fault-free run) is swept per fault kind. A case is non-trivial when the fault actually fired inside an rpgp call (fault runs) or when a non-full schedule/consumer was in force on a non-empty payload (fault-free runs); distinct = distinct hash of (configuration shape, seam event log, outcome class).",
-        families: vec![
-            Family { name: "builder_nofault", gen: gen_builder_nofault, run: run_builder },
-            Family { name: "builder_fault", gen: gen_builder_fault, run: run_builder },
-            Family { name: "reader_nofault", gen: gen_reader_nofault, run: run_reader },
-            Family { name: "reader_fault", gen: gen_reader_fault, run: run_reader },
-        ],
+        families: {
+            let mut f = vec![
+                Family { name: "builder_nofault", gen: gen_builder_nofault, run: run_builder },
+                Family { name: "builder_fault", gen: gen_builder_fault, run: run_builder },
+                Family { name: "reader_nofault", gen: gen_reader_nofault, run: run_reader },
+                Family { name: "reader_fault", gen: gen_reader_fault, run: run_reader },
+            ];
+            f.extend(super::c09b::families());
+            f
+        },
         assumptions: vec![
             "errors are judged at the first non-Interrupted error; stickiness of errors on later calls is not demanded",
             "Interrupted is retried by the consumer exactly as std's read_to_end/read_to_string/io::copy/read_exact do",
